@@ -492,6 +492,15 @@ def report(prop, tier, sel, results, inj_log, wall, write_evidence=True):
         },
         "assumptions": assumptions, "wall_s": round(wall, 1), "violations": viol,
     }
+    if obligations == 0:
+        # every unit of this property is a bounded stand-in: nothing is claimed as proved; report as bounded model checking
+        nb = sum(b["checks"] for b in bounded)
+        ev["level"] = "model_checking"
+        ev["coverage"].update({
+            "evaluations": nb,
+            "distinct_nontrivial": sum(x["harnesses"] for x in per_unit if x["status"] == "PASS" and x["kind"] == "bounded"),
+            "rule": "one evaluation = one CBMC property (assertion / overflow / bounds / pointer / unwinding check) decided by bounded model checking inside the stated bounds; distinct_nontrivial = number of passed harnesses (each is a different case split of the bounded unit, with its reachability covers satisfied)",
+        })
     if write_evidence:
         os.makedirs(os.path.join(VERIF, "evidence"), exist_ok=True)
         json.dump(ev, open(os.path.join(VERIF, "evidence", prop + ".json"), "w"), indent=1)
